@@ -15,8 +15,10 @@ mod c15;
 mod c16;
 mod c17;
 mod c18;
+mod c19;
 mod modgen;
 mod refgraph;
+mod specs;
 mod gram;
 mod util;
 mod c03;
@@ -55,7 +57,14 @@ fn main() {
                 "C16" => c16::run(&args, &mut rec),
                 "C17" => c17::run(&args, &mut rec),
                 "C18" => c18::run(&args, &mut rec),
+                "C19" => c19::run(&args, &mut rec),
                 "smoke" => smoke::run(&args, &mut rec),
+                "spectext" => {
+                    println!("{}\n====", specs::s1::SPECONE_TEXT);
+                    println!("{}\n====", specs::s2::SPECTWO_TEXT);
+                    println!("{}\n====", specs::s3::SPECTHREE_TEXT);
+                    println!("{}\n====", specs::s4::SPECFOUR_TEXT);
+                }
                 "load" => {
                     let path = args.extra.get("file").expect("--file");
                     let strict = args.extra.get("strict").is_some_and(|v| v == "1");
